@@ -74,6 +74,7 @@ class Gen:
         self.has_try = False
         self.ptr_helpers = False
         self.fn_ops = []          # names of the global (x: i32, y: i32) -> i32 functions
+        self.globals = {}         # global constants: name -> (type, False)
 
     def fresh(self, p="v"):
         self.n += 1
@@ -783,8 +784,41 @@ class Gen:
         return {"s": "expr", "x": {"e": "blk", "label": "", "ss": [pre, loop], "tail": NONE}}
 
     # --------------------------------------------------------------- programs
+    def global_consts(self):
+        """0-5 global constants: literals, aggregates of literals, comptime blocks over earlier ones"""
+        out = []
+        for _ in range(self.r.randrange(0, 6)):
+            t = self.r.choice([I32, I32, U8, I64, BOOL, ("arr", 3, I32), REC_P])
+            n = self.fresh("K")
+            self.scopes = [dict(self.globals)]
+            earlier = [g for g, (gt, _) in self.globals.items() if gt == t and t[0] == "int"]
+            if earlier and self.r.random() < 0.4:
+                x = {"e": "blk", "label": "", "ss": [], "comptime": True,
+                     "tail": {"e": "bin", "op": self.r.choice(["add", "mul", "xor"]), "l": {"e": "var", "n": self.r.choice(earlier), "ty": t}, "r": self.lit(t)}}
+            elif t[0] == "arr":
+                x = {"e": "arr", "elem": t[2], "es": [self.lit(t[2]) for _ in range(t[1])]}
+            elif t[0] == "rec":
+                # a struct literal is not const by itself: the global is a comptime block
+                x = {"e": "blk", "label": "", "ss": [], "comptime": True,
+                     "tail": {"e": "rec", "ty": t[1], "fs": [{"n": fn, "x": self.lit(ft)} for fn, ft in t[2]]}}
+            else:
+                x = self.lit(t)
+            def plain(e):          # `i32.(5)` is a cast expression and not const; a bare literal is
+                if isinstance(e, dict):
+                    if e.get("e") == "int":
+                        e["plain"] = True
+                    for v in e.values():
+                        plain(v)
+                elif isinstance(e, list):
+                    for v in e:
+                        plain(v)
+            plain(x)
+            self.globals[n] = (t, False)
+            out.append({"n": n, "x": x, "ty": t})
+        return out
+
     def function(self, name, ptys, ret, nstmts):
-        self.scopes = [{}]
+        self.scopes = [dict(self.globals)]
         params = []
         for pt in ptys:
             pn = self.fresh("p")
@@ -816,6 +850,7 @@ class Gen:
 
     def program(self):
         fns = []
+        globs = self.global_consts()
         self.noprint = True
         for k in range(self.r.randrange(1, 4)):
             name = "f%d" % k
@@ -844,7 +879,7 @@ class Gen:
                                      "i": {"e": "var", "n": iv, "ty": ("int", 8, False)}}, "ty": I32},
                 {"s": "print", "x": self.lit(I32), "ty": I32}]
         fns.append(main)
-        return {"fns": fns + self.local_fns}
+        return {"fns": fns + self.local_fns, "globs": globs}
 
 
 # -------------------------------------------------------------------- rendering
@@ -917,7 +952,7 @@ class Render:
         if k == "ifx":
             return "(if %s %s else %s)" % (self.expr(e["c"]), self.expr(e["t"]), self.expr(e["f"]))
         if k == "blk":
-            return self.block(e, 1)
+            return ("comptime " if e.get("comptime") else "") + self.block(e, 1)
         if k == "none":
             return ""
         if k == "variant":
@@ -1053,14 +1088,18 @@ class Render:
         ret = " -> %s" % tyname(self.tup(f["ret"])) if f["ret"] is not None else ""
         return "%s :: (%s)%s %s" % (f["name"], ps, ret, self.block(f["body"], 1))
 
+    def glob(self, g):
+        return "%s : %s : %s;" % (g["n"], tyname(self.tup(g["ty"])), self.expr(g["x"]))
+
     def program(self, p):
-        return PRELUDE_TYPES + "\n".join(self.fn(f) for f in p["fns"] if not f.get("local")) + "\n"
+        return PRELUDE_TYPES + "\n".join(self.glob(g) for g in p.get("globs", [])) + "\n" + \
+            "\n".join(self.fn(f) for f in p["fns"] if not f.get("local")) + "\n"
 
 
 def strip(x):
     """the abstract syntax without the renderer's annotations (types of lets / prints etc.)"""
     if isinstance(x, dict):
-        return {k: strip(v) for k, v in x.items() if k not in ("ty", "mut", "flat", "elem", "usize", "ret", "kind", "text", "plain", "sty", "order", "auto", "m", "char", "tychar", "inline", "lambda", "local")
+        return {k: strip(v) for k, v in x.items() if k not in ("ty", "mut", "flat", "elem", "usize", "ret", "kind", "text", "plain", "sty", "order", "auto", "m", "char", "tychar", "inline", "lambda", "local", "comptime")
                 or (k == "ty" and x.get("e") in ("int", "cast", "rec", "type"))}
     if isinstance(x, (list, tuple)):
         return [strip(v) for v in x]
